@@ -37,6 +37,7 @@ var (
 	r18     = tcpip.Address("\x0a\x00\x01\x08")
 	r29     = tcpip.Address("\x0a\x00\x02\x09")
 	foreign = tcpip.Address("\x0a\x00\x01\x4d")
+	insub   = tcpip.Address("\x0a\x00\x01\xc8") // 10.0.1.200: inside 10.0.1.192/26, which an interface may be told it owns
 	group1  = tcpip.Address("\xe0\x00\x00\x09") // multicast groups: assigned to an interface while a socket is a member
 	group2  = tcpip.Address("\xef\x01\x01\x01")
 )
@@ -48,6 +49,26 @@ type world struct {
 	out      [3][]*wire.Frame
 	assigned map[tcpip.NICID]map[tcpip.Address]bool
 	members  map[tcpip.NICID]map[tcpip.Address]int // multicast memberships held by open sockets
+	promisc  map[tcpip.NICID]bool                  // interface explicitly promiscuous
+	subnets  map[tcpip.NICID][][2]tcpip.Address    // subnets the interface owns: (address, mask)
+}
+
+// admitted: is a packet for dst that arrives on nic addressed to this interface? (statement:
+// the address is currently assigned, or the interface is explicitly promiscuous / owns the subnet)
+func (w *world) admitted(nic tcpip.NICID, dst tcpip.Address) bool {
+	if w.assigned[nic][dst] || w.members[nic][dst] > 0 || w.promisc[nic] {
+		return true
+	}
+	for _, sn := range w.subnets[nic] {
+		in := len(dst) == len(sn[0])
+		for i := 0; in && i < len(dst); i++ {
+			in = dst[i]&sn[1][i] == sn[0][i]
+		}
+		if in {
+			return true
+		}
+	}
+	return false
 }
 
 type membership struct {
@@ -57,7 +78,8 @@ type membership struct {
 
 func newWorld() *world {
 	s := stack.New([]string{ipv4.ProtocolName, ipv6.ProtocolName}, []string{tcp.ProtocolName, udp.ProtocolName}, stack.Options{})
-	w := &world{s: s, assigned: map[tcpip.NICID]map[tcpip.Address]bool{1: {}, 2: {}}, members: map[tcpip.NICID]map[tcpip.Address]int{1: {}, 2: {}}}
+	w := &world{s: s, assigned: map[tcpip.NICID]map[tcpip.Address]bool{1: {}, 2: {}}, members: map[tcpip.NICID]map[tcpip.Address]int{1: {}, 2: {}},
+		promisc: map[tcpip.NICID]bool{}, subnets: map[tcpip.NICID][][2]tcpip.Address{}}
 	for id := 1; id <= 2; id++ {
 		id := id
 		l := wire.NewLink(fmt.Sprintf("nic%d", id), 1500, "", 0)
@@ -112,7 +134,7 @@ func (s *sock) String() string {
 
 // reference demultiplexer, written from the statement.
 func (w *world) expect(socks []*sock, proto string, nic tcpip.NICID, dst tcpip.Address, dport uint16, src tcpip.Address, sport uint16) *sock {
-	if !w.assigned[nic][dst] && w.members[nic][dst] == 0 {
+	if !w.admitted(nic, dst) {
 		return nil // not addressed to this interface
 	}
 	for _, scope := range []tcpip.NICID{nic, 0} {
@@ -365,6 +387,62 @@ func scenario(k int) {
 			}
 		}
 	}
+	// admission beyond the assigned addresses: an interface is made promiscuous, or is told that
+	// it owns a subnet; half of the time that is taken back again after a few datagrams have
+	// been admitted (the temporary address objects they created must not outlive them)
+	if r.Chance(2, 5) {
+		nic := tcpip.NICID(1 + r.Intn(2))
+		sub := [2]tcpip.Address{"\x0a\x00\x01\xc0", "\xff\xff\xff\xc0"}
+		usePromisc := r.Bool()
+		var e *tcpip.Error
+		if usePromisc {
+			e = w.s.SetPromiscuousMode(nic, true)
+		} else {
+			sn, _ := tcpip.NewSubnet(sub[0], tcpip.AddressMask(sub[1]))
+			e = w.s.AddSubnet(nic, ipv4.ProtocolNumber, sn)
+		}
+		if e != nil {
+			run.Broken("harness: admission switch: " + e.String())
+		}
+		revert := r.Bool()
+		if revert {
+			for i := 0; i < 1+r.Intn(3); i++ {
+				var s4, d4 [4]byte
+				copy(s4[:], r18)
+				copy(d4[:], insub)
+				u := rfc.UDP{SrcPort: 5000, DstPort: ports[r.Intn(len(ports))], Payload: []byte("early")}
+				ip := rfc.IPv4{TTL: 64, Proto: rfc.ProtoUDP, ID: uint16(60000 + i), Src: s4, Dst: d4, Payload: u.Bytes4(s4, d4, true)}
+				w.links[nic].Inject(ipv4.ProtocolNumber, ip.Bytes(true), "")
+			}
+			rawpeer.Settle()
+			for _, s := range socks {
+				if !s.closed && s.Proto == "udp" {
+					for {
+						if _, _, e := s.ep.Read(nil); e != nil {
+							break
+						}
+					}
+				}
+			}
+			if usePromisc {
+				e = w.s.SetPromiscuousMode(nic, false)
+			} else {
+				sn, _ := tcpip.NewSubnet(sub[0], tcpip.AddressMask(sub[1]))
+				e = w.s.RemoveSubnet(nic, sn)
+			}
+			if e != nil {
+				run.Broken("harness: admission switch back: " + e.String())
+			}
+			run.Count("admission_switched_on_and_off_again", 1)
+		} else if usePromisc {
+			w.promisc[nic] = true
+			run.Count("interfaces_promiscuous", 1)
+		} else {
+			w.subnets[nic] = append(w.subnets[nic], sub)
+			run.Count("interfaces_owning_a_subnet", 1)
+		}
+		tr("NIC %d: promiscuous=%v / owns 10.0.1.192/26=%v, taken back again=%v", nic, usePromisc, !usePromisc, revert)
+	}
 	w.takeAll()
 	bad := false
 	viol := func(key, what string) {
@@ -384,7 +462,7 @@ func scenario(k int) {
 	}
 	n := 0
 	for nic := tcpip.NICID(1); nic <= 2 && !bad; nic++ {
-		for _, dst := range []tcpip.Address{l11, l12, l21, foreign, group1, group2} {
+		for _, dst := range []tcpip.Address{l11, l12, l21, foreign, insub, group1, group2} {
 			for _, dport := range append(ports, 999) {
 				for _, src := range []tcpip.Address{r19, r18, r29} {
 					for _, sport := range []uint16{5000, 5001} {
@@ -399,7 +477,8 @@ func scenario(k int) {
 						// --- UDP
 						u := rfc.UDP{SrcPort: sport, DstPort: dport, Payload: pl}
 						ip := rfc.IPv4{TTL: 64, Proto: rfc.ProtoUDP, ID: uint16(n), Src: s4, Dst: d4, Payload: u.Bytes4(s4, d4, true)}
-						if n%4 == 1 {
+						fragmented := n%4 == 1
+						if fragmented {
 							// the datagram arrives in two fragments, behind the first fragment of a datagram
 							// from ANOTHER host that happens to use the same identification (and never
 							// completes): what a socket gets is decided by the real sender's addresses
@@ -420,7 +499,10 @@ func scenario(k int) {
 						}
 						want := w.expect(socks, "udp", nic, dst, dport, src, sport)
 						desc := fmt.Sprintf("UDP %v:%d > %v:%d arriving on NIC %d", []byte(src), sport, []byte(dst), dport, nic)
-						unassigned := !w.assigned[nic][dst] && w.members[nic][dst] == 0
+						unassigned := !w.admitted(nic, dst)
+						if !unassigned && !w.assigned[nic][dst] && w.members[nic][dst] == 0 {
+							run.Count("packets_admitted_by_promiscuous_mode_or_subnet", 1)
+						}
 						multicast := dst == group1 || dst == group2
 						var got []*sock
 						for _, s := range socks {
@@ -454,6 +536,11 @@ func scenario(k int) {
 								key = "udp/delivered-for-unassigned-address"
 							}
 							viol(key, fmt.Sprintf("%s was delivered to %s although the reference says nobody (address assigned to that interface: %v)", desc, got[0], !unassigned))
+						case want != nil && len(got) == 0 && fragmented && !w.assigned[nic][dst] && w.members[nic][dst] == 0:
+							// admitted by promiscuous mode / an owned subnet only: every fragment meets a
+							// fresh temporary address object with a reassembler of its own
+							viol("udp/fragmented-datagram-for-a-temporarily-admitted-address-never-reassembled", fmt.Sprintf("%s (in two fragments; the interface admits the address only because it is promiscuous / owns the subnet) should reach %s but no socket got it", desc, want))
+							bad = false // a known history must not hide the rest of the scenario
 						case want != nil && len(got) == 0:
 							viol("udp/not-delivered", fmt.Sprintf("%s should reach %s but no socket got it", desc, want))
 						case want != nil && got[0] != want:
@@ -467,6 +554,23 @@ func scenario(k int) {
 							w.links[nic].Inject(ipv4.ProtocolNumber, ip.Bytes(true), "")
 							rawpeer.Settle()
 							lw := w.expect(socks, "tcp-listen", nic, dst, dport, src, sport)
+							// a listener bound to a specific address is registered for the interface that
+							// owns the address; when the segment was admitted on ANOTHER interface (promiscuous /
+							// subnet) the statement does not say whether that binding matches: not judged
+							// unless both readings agree
+							ambiguous := false
+							if lw != nil && lw.LAddr != "" && !w.assigned[nic][dst] {
+								var rest []*sock
+								for _, s := range socks {
+									if !(s.Proto == "tcp-listen" && s.LAddr != "" && !w.assigned[nic][s.LAddr]) {
+										rest = append(rest, s)
+									}
+								}
+								if w.expect(rest, "tcp-listen", nic, dst, dport, src, sport) != lw {
+									ambiguous = true
+									run.Count("tcp_syns_with_ambiguous_interface_scope_not_judged", 1)
+								}
+							}
 							outs := w.takeAll()
 							var synacks, rsts int
 							for id := 1; id <= 2; id++ {
@@ -489,6 +593,10 @@ func scenario(k int) {
 							tdesc := fmt.Sprintf("TCP SYN %v:%d > %v:%d arriving on NIC %d", []byte(src), sport, []byte(dst), dport, nic)
 							run.Count("tcp_syns_judged", 1)
 							switch {
+							case ambiguous:
+								if synacks+rsts != 1 {
+									viol("tcp/neither-listener-nor-reset", fmt.Sprintf("%s: expected one SYN-ACK or one reset, got %d SYN-ACKs and %d resets", tdesc, synacks, rsts))
+								}
 							case unassigned && (synacks > 0 || rsts > 0) && !heldRemoved(dst):
 								viol("tcp/answered-for-unassigned-address", fmt.Sprintf("%s drew %d SYN-ACKs and %d resets although the address is not assigned to that interface", tdesc, synacks, rsts))
 							case !unassigned && lw != nil && synacks != 1:
